@@ -30,3 +30,11 @@ class Gen2(Generic[T, U]):
 @guppy.struct
 class Sized(Generic[T, n]):
     xs: array[T, n]
+
+
+B = guppy.const_var("B", "bool")
+
+
+@guppy.struct
+class Flagged(Generic[T, B]):
+    v: T
